@@ -218,6 +218,8 @@ def expected_image(src_snap, src_cls, route, dst_cls):
     order = {c: i for i, c in enumerate(CHAIN)}
     if route in ("pickle", "deepcopy"):
         return [k for k in src_snap if k != "cls"] + ["cls"]
+    if route == "ctor_list":
+        return ["atoms", "bonds", "coords", "charges", "cls"]     # an ensemble rebuilt from the list of its own conformers (weights are not part of a conformer)
     if src_cls == dst_cls or (src_cls == "Conformer" and dst_cls == "Molecule") or route in ("ctor+arrays", "ctor+assign"):
         out = [k for k in src_snap if k != "cls"]
         if src_cls == "Conformer":
@@ -284,6 +286,11 @@ def check(recipe) -> list[Fail]:
                 cp.atomic_charges = src.atomic_charges
             if hasattr(src, "weights") and hasattr(cp, "weights"):
                 cp.weights = src.weights
+        elif route == "ctor_list":
+            # copy construction from a LIST of structures: the conformers of the source (what ConformerEnsemble(ens[a:b]) does)
+            if src.n_conformers < 1:
+                return []
+            cp = ml.ConformerEnsemble(src[:])
         elif route == "pickle":
             cp = pickle.loads(pickle.dumps(src))
         elif route == "deepcopy":
@@ -497,7 +504,7 @@ def strat(tier):
             if src_cls in ("Connectivity", "Structure", "Molecule"):
                 rs += ["ctor:ConformerEnsemble"]
         if src_cls == "ConformerEnsemble":
-            rs += ["ctor:ConformerEnsemble"] * 3
+            rs += ["ctor:ConformerEnsemble"] * 3 + ["ctor_list"] * 2
         if src_cls == "Conformer":
             rs += ["ctor:Molecule"] * 3 + ["ctor:Structure"]
         if src_cls in ("Structure", "Molecule", "Conformer"):
